@@ -2,6 +2,7 @@
 
 // C09 harness.
 //   tree <NM> <op>...   op script against the real actor tree (pid_tree.go), dump after every op
+//   resolve | A ; D | <schedule>   name resolution racing deleteNode under controlled scheduling (E3)
 //   sys <op>...         spawn/watch/stop/restart script on a real started actor system (zz_verif_c09sys.go)
 package main
 
@@ -10,7 +11,17 @@ import (
 	"github.com/tochemey/goakt/v4/internal/verifdrv/vlib"
 )
 
+func mkResolve(cfg string, n int) vlib.Obj {
+	if v := actor.NewVerifC09Resolve(); v != nil {
+		return v
+	}
+	return nil
+}
+
 func handle(line string) string {
+	if len(line) > 7 && line[:7] == "resolve" {
+		return vlib.RunConc(line, mkResolve)
+	}
 	f := vlib.Fields(line)
 	if len(f) < 2 {
 		return "bad-case"
